@@ -101,6 +101,122 @@ class LockPhasesSuite:
         return corr, prop
 
 
+
+class LockFdSuite:
+    """FileSystem::lock_file in its two system calls (an opener parked between opening the LOCK
+    file and locking it, hook point lock:after_open) interleaved with opens, closes and
+    destroy_database, against LockFd.fstep true"""
+    suite = "lockfd"
+
+    def __init__(self, cases):
+        self.cases = cases
+        self.stats = {"openers_parked": 0, "locks_after_destroy": 0}
+
+    def execute(self, workdir, tag="lf"):
+        impl = lib.run_sharded(lib.RVH, "lock", self.cases, workdir, tag + "i", extra_env={"RVH_CASE_TIMEOUT": "200"})
+        model = lib.run_sharded(lib.DRIVER, "lockfd", self.cases, workdir, tag + "m")
+        prop, corr = [], []
+        for c in self.cases:
+            cid = c.split(" ", 1)[0]
+            a = impl.get(cid, "").split(" ")[1:]
+            ml = model.get(cid, "")
+            b = ml.split(" ")[1:]
+            steps = c.split(" ")[1:]
+            bad = None
+            if len(a) != len(steps) or len(b) != len(steps):
+                bad = "run failed: %s / %s" % (impl.get(cid, "")[:200], ml[:200])
+            else:
+                openh = set()
+                destroyed = False
+                for i, (st, x) in enumerate(zip(steps, a)):
+                    if st[0] in "OL" and x == "ok":
+                        openh.add(st[1:])
+                    elif st[0] == "X" and x == "ok":
+                        openh.discard(st[1:])
+                    elif st[0] == "I" and x == "parked":
+                        self.stats["openers_parked"] += 1
+                    elif st[0] == "D" and x == "ok":
+                        destroyed = True
+                    if st[0] == "L" and destroyed:
+                        self.stats["locks_after_destroy"] += 1
+                    if len(openh) > 1:
+                        bad = "step %d %s: handles %s are open at the same time" % (i, st, sorted(openh))
+                        break
+                if not bad:
+                    for i, (st, x, y) in enumerate(zip(steps, a, b)):
+                        if y != "*" and x.replace("nohandle", "none") != y:
+                            bad = "step %d %s: implementation %s, model %s" % (i, st, x, y)
+                            break
+            if bad:
+                prop.append({"case": c, "impl": impl.get(cid, "")[:600], "spec": ml[:600], "model": "", "detail": bad})
+        return corr, prop
+
+
+def gen_lockfd(tier, rng):
+    import itertools
+    import os
+    cases = []
+    d = os.path.join(lib.VERIF, "corpus", "C17fd")
+    if os.path.isdir(d):
+        for f in sorted(os.listdir(d)):
+            cases += [l.strip() for l in open(os.path.join(d, f)) if l.strip() and not l.startswith("#")]
+
+    def legal(steps):
+        """handle names are used for one open attempt at a time"""
+        busy = set()
+        for st in steps:
+            if st[0] in "OI":
+                if st[1:] in busy:
+                    return False
+                busy.add(st[1:])
+            elif st[0] == "X":
+                if st[1:] not in busy:
+                    return False
+        return True
+
+    # every schedule of up to 5 steps over two openers, one plain open and destroy
+    alphabet = ["Ia", "La", "Ib", "Lb", "Oc", "Xc", "D", "Xa"]
+    depth = 4 if tier == "quick" else 6
+    j = 0
+    seen = set()
+    for n in range(2, depth + 1):
+        for seq in itertools.product(alphabet, repeat=n):
+            if not legal(seq) or "Ia" not in seq or ("D" not in seq and "Ib" not in seq):
+                continue
+            if tier == "quick" and n == 4 and rng.random() < 0.6:
+                continue
+            key = " ".join(seq)
+            if key in seen:
+                continue
+            seen.add(key)
+            cases.append("fe%d %s" % (j, key))
+            j += 1
+    # random longer schedules, optionally after a first life of the database
+    for i in range(40 if tier == "quick" else 2500):
+        steps = ["Oz", "Pz:x61=x01", "Xz"] if rng.random() < 0.5 else []
+        busy, pend, openh = set(), [], []
+        fresh = iter("abcdefghijklmnopqrstuvwxy")
+        for _ in range(rng.randrange(4, 11)):
+            r = rng.random()
+            if r < 0.3:
+                h = next(fresh)
+                steps.append("I" + h)
+                pend.append(h)
+            elif r < 0.55 and pend:
+                h = pend.pop(rng.randrange(len(pend)))
+                steps.append("L" + h)
+                openh.append(h)
+            elif r < 0.7:
+                h = next(fresh)
+                steps.append("O" + h)
+                openh.append(h)
+            elif r < 0.85 and openh:
+                steps.append("X" + openh.pop(rng.randrange(len(openh))))
+            else:
+                steps.append("D")
+        cases.append("fr%d %s" % (i, " ".join(steps)))
+    return cases
+
 def gen_phased(tier, rng):
     import os
     cases = []
@@ -161,16 +277,21 @@ def gen_cases(tier, rng):
 def suites(tier, seed, rng):
     return [LockSuite(["k0 Oa Pa:x61=x01 Ob D Ga:x61 Pa:x62=x02 Xa Oc Gc:x61 Gc:x62 Xc R4 Od Gd:x61 Q3",
                       "k1 Oa Pa:x61=x01 Za Ob Gb:x61 Xb", "k2 Oa Za Za Ob Zb D"] + gen_cases(tier, rng)),
-            LockPhasesSuite(gen_phased(tier, rng))]
+            LockPhasesSuite(gen_phased(tier, rng)),
+            LockFdSuite(gen_lockfd(tier, rng))]
 
 
 def replay_suites(rp):
+    if rp.get("suite") == "lockfd":
+        return [LockFdSuite([rp["case"]])]
     if rp.get("suite") == "lockp":
         return [LockPhasesSuite([rp["case"]])]
     return [LockSuite([rp["case"]])]
 
 
 def still_fails(suite, case, workdir):
+    if suite == "lockfd":
+        return bool(LockFdSuite([case]).execute(workdir, tag="sh")[1])
     if suite == "lockp":
         return bool(LockPhasesSuite([case]).execute(workdir, tag="sh")[1])
     return bool(LockSuite([case]).execute(workdir, tag="sh")[1])
